@@ -399,6 +399,9 @@ func (k Keeper) UpdateProviderCollateralForPayout(ctx sdk.Context, providerAddr 
 
 // MakePayoutByProviderDelegations undelegates the provider's delegations and transfers tokens from the staking module account to the shield module account.
 func (k Keeper) MakePayoutByProviderDelegations(ctx sdk.Context, providerAddr sdk.AccAddress, purchased, payout sdk.Int) error {
+	// What the delegations are worth changes without any hook when a validator is slashed:
+	// bring the recorded stake up to date before splitting the payout between delegations and unbondings.
+	k.UpdateDelegationAmount(ctx, providerAddr)
 	provider, found := k.GetProvider(ctx, providerAddr)
 	if !found {
 		return types.ErrProviderNotFound
